@@ -613,7 +613,13 @@ def build_glue(bd):
 def osmocon_glue(ctx, r, bd):
 	""" Messages handed to osmocon's hdlc_send_to_phone() come out of its handle_sercomm_write() as well-formed
 	    frames and - looped back into the receiver - reach hdlc_tool_cb() intact: length prefix + payload per tool. """
-	binary = build_glue(bd)
+	try:
+		binary = build_glue(bd)
+	except cbuild.BuildFailed:
+		# the functions exist but no longer fit the stand-in declarations around them (a changed signature,
+		# a new helper): this sub-workload cannot speak, the others still decide
+		ctx.count("osmocon_glue_not_buildable_with_the_stand_ins")
+		return
 	if binary is None:
 		ctx.count("osmocon_glue_functions_not_found")
 		return
